@@ -50,7 +50,7 @@ CPUS_QUICK = ["msp430", "msp430x", "6502", "65816", "68hc08", "68000", "mips", "
 # forms whose size in pass 2 can differ from the size reserved in pass 1 (a forward reference to a small value):
 # the programs built from them exercise the moved-name check, through `name:` and through `.func name`
 UNSTABLE = {"6809": ["lda {},x", "ldb {},y", "leax {},u", "lda [{},x]", "adda {},s", "stb {},x", "leay {},y"],
-            "tms340": ["jruc {}", "jrne {}"]}
+            "tms340": ["jruc {}", "jrne {}", "movi {}, a1", "addi {}, a2", "andi {}, a4", "cmpi {}, a5"]}
 
 ORG_A, ORG_B = 0x400, 0x2340        # two aligned origins for the stand-alone reference of a statement
 
@@ -84,6 +84,53 @@ def parse_source(src):
         elif t.startswith(".org"):
             prev = ("(area start)", "-")
     return out
+
+
+def info_from_source(src):
+    """rebuild the generator's description of a program (info["defs"] etc.) from its text, so that a stored
+    failing input can be judged again without the generator's state"""
+    lines = src.split("\n")
+    cpu = lines[0].strip().lstrip(".")
+    defs, stmts = [], []
+    prev = ("(area start)", "-")
+    pending = []
+    opened = None
+    msize = None
+    for k, ln in enumerate(lines):
+        t = ln.strip()
+        name = kind = None
+        if t.startswith(".org"):
+            prev, pending = ("(area start)", "-"), []
+        elif t == ".scope":
+            opened = "scope"
+        elif t in (".ends", ".endf"):
+            opened = None
+        elif t.startswith(".func "):
+            name, kind, opened = t.split()[1], "func", "func"
+        elif t.endswith(":") and " " not in t:
+            name = t[:-1]
+            kind = "colon" if opened is None else ("scope" if lines[k - 1].strip() == ".scope" else "local")
+        elif t.endswith("; M"):
+            msize = {".db": 1, ".dc16": 2, ".dc32": 4}[t.split()[0]]
+            if defs and defs[-1]["line"] == k:          # the datum directly behind the definition
+                defs[-1]["marker"] = int(t.split()[1], 16)
+            for d in pending:
+                d["next"] = {"kind": "data", "line": k + 1, "form": t.split()[0], "cls": "-", "text": t}
+            pending = []
+        elif "; S " in t:
+            text, meta = t.split(" ; S ", 1)
+            form, _, cls = meta.rpartition(" | ")
+            isdata = form.startswith(".")
+            for d in pending:
+                d["next"] = {"kind": "data" if isdata else "instr", "line": k + 1, "form": form, "cls": cls, "text": text}
+            pending = []
+            prev = (form, cls)
+            stmts.append((len(defs), "data" if isdata else form, cls))
+        if name is not None:
+            d = {"name": name, "kind": kind, "marker": None, "prev": prev, "line": k + 1, "next": None}
+            defs.append(d)
+            pending.append(d)
+    return {"cpu": cpu, "defs": defs, "stmts": stmts, "msize": msize or 1}
 
 
 # ---- stand-alone reference of one statement ---------------------------------------------------
@@ -170,13 +217,11 @@ def parse_lines(d):
 
 
 def align_class(d, a, bpa, kinds):
-    """is the (byte) location counter odd at the name `d` bound to byte address `a`?  With one byte per
-    address the address says so; with wider address units the generator's byte count, else the image
-    (a data byte occupies the start of the unit the name points to)."""
+    """is the (byte) location counter odd at the name `d` (followed by an instruction) bound to byte address
+    `a`?  With one byte per address the address says so; with wider address units the image (a data byte
+    occupies the start of the unit the name points to)."""
     if bpa == 1:
         return "odd" if a & 1 else "even"
-    if d["odd"] is not None:
-        return "odd" if d["odd"] else "even"
     return "odd" if kinds.get(a) == "d" else "even"
 
 
@@ -194,8 +239,8 @@ def judge(src, info, opt, locked, debug, cal, stats):
     p1 = debug["p1_list"]
     p2 = debug["syms_list"]
     final = locked["syms_list"]
-    if [d["name"] for d in defs] != [n for n, a, s, e in final] or \
-       [(d[0], d[3]) for d in parse_source(src)] != [(d["name"], "func" if d["kind"] == "func" else "colon") for d in defs]:
+    strip = lambda ds: [{k: v for k, v in d.items() if k != "odd"} for d in ds]
+    if [d["name"] for d in defs] != [n for n, a, s, e in final] or strip(info_from_source(src)["defs"]) != strip(defs):
         return [("C02:protocol:%s" % cpu, "names of the source in order", str([n for n, a, s, e in final])[:200],
                  "symbol list does not match the definitions of the source")], "accepted"
     # 0. the table after pass 2 of the production run is the table of pass 1
@@ -251,8 +296,8 @@ def judge(src, info, opt, locked, debug, cal, stats):
         if enc:
             stats["code_checks"] += 1
             stats["code_checks_kind"][d["kind"]] = stats["code_checks_kind"].get(d["kind"], 0) + 1
-            if d["odd"]:
-                stats["code_checks_after_odd_data"] += 1
+            if align_class(d, a, bpa, locked["kinds"]) == "odd":
+                stats["code_checks_at_odd_counter"] += 1
             if any(img.get(a + i) != enc[i] for i in range(len(enc))):
                 how = "lost"
                 for k in range(1, 9):
@@ -320,7 +365,7 @@ def oracle(ctx, orc, focus=None):
     ans = ctx.impl(lines)
     cal.need(reqs)
     stats = {"accepted": 0, "rejected": 0, "died": 0, "per_cpu": {}, "classes": {}, "rejected_examples": [],
-             "marker_checks": 0, "code_checks": 0, "code_checks_kind": {}, "code_checks_after_odd_data": 0, "line_checks": 0,
+             "marker_checks": 0, "code_checks": 0, "code_checks_kind": {}, "code_checks_at_odd_counter": 0, "line_checks": 0,
              "standalone_runs": len(cal.res), "programs_by_kind": {}, "names_by_kind": {}}
     i = 0
     for src, info in cases:
@@ -375,6 +420,10 @@ def correspondence(ctx, corr):
                 src, info = G.gen_twopass(rng, cpu, rng.choice([2, 4, 6]), forms=forms_unstable, rel=False,
                                           kinds=("func", "colon", "mixed")[k % 3])
                 metas.append((src, info))
+        # every form alone with all operand classes: the forms the tree keeps size-stable must be accepted
+        for form in G.FORMS[cpu]["forms"]:
+            src, info = G.gen_twopass(rng, cpu, 5, forms=[form], rel=False, kinds=("colon", "func", "local")[len(metas) % 3])
+            metas.append((src, info))
     for src, info in metas:
         lines.append("progd - " + nvlib.hexs(src))
         lines.append(nvlib.prog_line(src, "1"))
@@ -382,6 +431,7 @@ def correspondence(ctx, corr):
     mlines, wants = [], []
     verdicts = {"ok": 0, "moved": 0, "skipped": 0, "moved_behind_func_only": 0}
     kinds_seen = {}
+    expected_moves = {}
     for k, (src, info) in enumerate(metas):
         r = nvlib.parse_prog(ans[2 * k])
         locked = nvlib.parse_prog(ans[2 * k + 1])
@@ -420,12 +470,53 @@ def correspondence(ctx, corr):
             verdicts["moved"] += 1
         if first_moved == "func":
             verdicts["moved_behind_func_only"] += 1
+        # size-stability of the back ends (the hypothesis of `labels_stable`): a name moves only behind a form
+        # the tree is known to re-size in pass 2 (UNSTABLE) or behind the forward-shadow shape
+        if first_moved is not None:
+            d = next(d for d, (n1, a1, s1, e1), (n2, a2, s2, e2) in zip(defs, r["p1_list"], r["syms_list"]) if a1 != a2)
+            form, cls = d["prev"]
+            key = "%s:%s:%s" % (info["cpu"], form, cls)
+            if cls == "fwd-shadow" or form in UNSTABLE.get(info["cpu"], []):
+                expected_moves[key] = expected_moves.get(key, 0) + 1
+            else:
+                corr["disagreements"].append({
+                    "line": "size-stable %s | %s" % (key, src.replace("\n", "|")[:900]),
+                    "impl": "name %s: pass 1 %x, pass 2 %x (%s)" % (d["name"], *[(a1, a2) for dd, (n1, a1, s1, e1), (n2, a2, s2, e2) in zip(defs, r["p1_list"], r["syms_list"]) if dd is d][0],
+                                                                  "accepted" if locked["st"] == 0 else "rejected: label moved"),
+                    "model": "the form reserves in pass 1 what it emits in pass 2 (SizeStable): no name moves"})
     got = ctx.model(mlines)
     corr["cases"] += len(mlines)
     for l, w, g in zip(mlines, wants, got):
         if w != g:
             corr["disagreements"].append({"line": l[:1000], "impl": w[:500], "model": g[:500]})
-    corr["streams"]["twopass"] = {"lines": len(mlines), "programs": len(metas), "verdicts": verdicts, "names_by_kind": kinds_seen}
+    corr["streams"]["twopass"] = {"lines": len(mlines), "programs": len(metas), "verdicts": verdicts, "names_by_kind": kinds_seen,
+                                  "moves_behind_known_unstable_forms": expected_moves}
+    # the MSP430 constant-generator instance: the model computes the sizes itself (flag byte, pad byte)
+    progs = [G.gen_msp430cg(rng, rng.choice([3, 6, 10, 16])) for _ in range(ctx.scale(60, 600))]
+    ans = ctx.impl([nvlib.prog_line(src, "1") for src, ops, start, names in progs])
+    m430, w430 = [], []
+    v430 = {"ok": 0, "rejected": 0, "skipped": 0}
+    for (src, ops, start, names), a in zip(progs, ans):
+        d = nvlib.parse_prog(a)
+        if d.get("died") or [n for n, _, _, _ in d["p1_list"]] != names:
+            v430["skipped"] += 1
+            continue
+        m430.append("twopass430 %d %s" % (start, " ".join(ops[1:])))
+        if d["st"] == 0:
+            w430.append("ok " + " ".join("%s=%x/%x" % (n, a1, a2) for (n, a1, _, _), (_, a2, _, _) in zip(d["p1_list"], d["syms_list"])))
+            v430["ok"] += 1
+        else:
+            w430.append("moved")
+            v430["rejected"] += 1
+    g430 = ctx.model(m430)
+    corr["cases"] += len(m430)
+    for l, w, g, (src, _, _, _) in zip(m430, w430, g430, progs):
+        if w != g:
+            corr["disagreements"].append({"line": l[:600] + " | " + src.replace("\n", "|")[:600], "impl": w[:500], "model": g[:500]})
+    corr["streams"]["msp430cg"] = {"lines": len(m430), "verdicts": v430}
+    mlines += m430
+    wants += w430
+    got += g430
     corr["distinct_nontrivial"] = len(set(mlines))
     corr["samples"] = [{"line": mlines[i][:200], "impl": wants[i][:200], "model": got[i][:200]}
                        for i in range(0, len(mlines), max(1, len(mlines) // 4))][:4]
@@ -436,10 +527,14 @@ def replay(ctx, rec):
     src = f.get("input")
     if not src:
         return {"fails": False, "note": "no source recorded"}
-    opt = "o" if f.get("optimize") else ""
-    a = ctx.impl([nvlib.prog_line(src, "1" + opt), "progd %s %s" % (opt or "-", nvlib.hexs(src))])
-    debug = nvlib.parse_prog(a[1])
-    if debug.get("died"):
-        return {"fails": True, "impl": a[1][:300]}
-    moved = [(n, a1, a2) for (n, a1, s1, e1), (n2, a2, s2, e2) in zip(debug["p1_list"], debug["syms_list"]) if a1 != a2]
-    return {"fails": bool(moved), "moved_labels": moved[:10], "locked": a[0][:400]}
+    opt = bool(f.get("optimize"))
+    o = "o" if opt else ""
+    a = ctx.impl([nvlib.prog_line(src, "1L" + o), "progd %s %s" % (o or "-", nvlib.hexs(src))])
+    locked, debug = nvlib.parse_prog(a[0]), nvlib.parse_prog(a[1])
+    info = info_from_source(src)
+    cal = Cal(ctx)
+    cal.need(cal_requests(info, opt))
+    stats = {"marker_checks": 0, "code_checks": 0, "code_checks_kind": {}, "code_checks_at_odd_counter": 0, "line_checks": 0}
+    fs, verdict = judge(src, info, opt, locked, debug, cal, stats)
+    return {"fails": bool(fs), "verdict": verdict, "failures": [{"sig": s, "expected": e, "observed": ob} for s, e, ob, w in fs][:5],
+            "locked": a[0][:400]}
